@@ -7,6 +7,7 @@ import (
 	"math/rand"
 	"sort"
 	"sync"
+	"sync/atomic"
 	"testing"
 	"time"
 
@@ -118,8 +119,8 @@ func TestVerif_C11(t *testing.T) {
 		res.eval(1)
 		// overlap evidence: requests of different peers whose [send, reply] intervals overlapped
 		type iv struct {
-			peer   int
-			s, e   int64
+			peer int
+			s, e int64
 		}
 		var ivs []iv
 		for r, h := range runners {
@@ -233,6 +234,7 @@ func TestVerif_C11(t *testing.T) {
 		}
 	}
 	c11NewPeers(res)
+	c11Churn(res)
 }
 
 // c11NewPeers: many new peers send their first datagram at the same moment. No peer may receive a response
@@ -348,6 +350,120 @@ func c11NewPeers(res *vResult) {
 				p.close()
 			}
 		}
+		a.stop(vStopWatchdog)
+	}
+}
+
+// c11Churn: several associations attach and detach UEs with UPF-allocated addresses on a pool of six addresses, with a
+// slow datapath: an address goes from one association's ending session to another association's new one all the time.
+// At quiescence every accepted, not yet deleted session has its address for itself and its downlink entry installed.
+func c11Churn(res *vResult) {
+	n := vEnv.pick(36, 1500)
+	for k := 0; k < n; k++ {
+		idx := 8000000 + k
+		if !vEnv.mine(idx) {
+			continue
+		}
+		rng := vEnv.rng("c11c", k)
+		res.begin(idx, fmt.Sprintf("c11 churn on a small pool %d", k), nil)
+		o := vDefaultOpts(false, vEnv.addr(1))
+		o.UEAlloc, o.UEPool = true, "10.61.7.0/29"
+		a, err := vStartAgent(o)
+		if err != nil {
+			res.inconclusive("agent start: " + err.Error())
+			return
+		}
+		a.bess.armFaults(vBessFault{Delay: time.Duration(200+rng.Intn(1500)) * time.Microsecond})
+		npeers := 3 + rng.Intn(3)
+		type live struct {
+			up   uint64
+			addr string
+		}
+		lives := make([][]live, npeers)
+		var wg sync.WaitGroup
+		var unanswered int32
+		for pi := 0; pi < npeers; pi++ {
+			wg.Add(1)
+			seed := rng.Int63()
+			go func(pi int) {
+				defer wg.Done()
+				r := rand.New(rand.NewSource(seed))
+				p, err := vNewPeer(vEnv.addr(60+pi), a.opts.N4)
+				if err != nil {
+					return
+				}
+				defer p.close()
+				if c01Request(p, p.assocSetup(1), 1) == nil {
+					return
+				}
+				seq := uint32(10)
+				for it := 0; it < 25+r.Intn(20); it++ {
+					seq += 2
+					if len(lives[pi]) > 0 && (len(lives[pi]) >= 2 || r.Intn(2) == 0) {
+						x := lives[pi][0]
+						m := c01Request(p, p.deletion(seq, x.up), seq)
+						if m == nil {
+							atomic.AddInt32(&unanswered, 1)
+							return
+						}
+						if vDecodeReply(m).Cause == 1 {
+							lives[pi] = lives[pi][1:]
+						}
+						continue
+					}
+					est := c10Session(seq, uint64(0xC0000+pi*1000+it), 45000+k*40%4000+pi*100+it)
+					est.PDRs[0].UEFlag, est.PDRs[0].UEIP = 0x04, ""
+					est.PDRs[1].UEFlag, est.PDRs[1].UEIP = 0x04, ""
+					m := c01Request(p, p.establish(est), seq)
+					if m == nil {
+						atomic.AddInt32(&unanswered, 1)
+						return
+					}
+					er, ok := m.(*message.SessionEstablishmentResponse)
+					if !ok || vDecodeReply(m).Cause != 1 {
+						continue // the pool is empty right now
+					}
+					addr := ""
+					for _, c := range er.CreatedPDR {
+						if u, err := c.UEIPAddress(); err == nil && u.IPv4Address != nil {
+							addr = u.IPv4Address.String()
+						}
+					}
+					lives[pi] = append(lives[pi], live{c01UPSEID(m), addr})
+				}
+			}(pi)
+		}
+		wg.Wait()
+		res.eval(1)
+		if unanswered > 0 {
+			res.inconclusive("churn: a request was not answered")
+			a.stop(vStopWatchdog)
+			continue
+		}
+		snap := a.bess.snapshot()
+		owner := map[string]uint64{}
+		nlive := 0
+		for pi := range lives {
+			for _, x := range lives[pi] {
+				nlive++
+				if o, dup := owner[x.addr]; dup {
+					res.violate("C11.R6", "address-shared-by-two-live-sessions", fmt.Sprintf("sessions %#x and %#x of different associations are both live with UE address %s", o, x.up, x.addr), nil)
+				}
+				owner[x.addr] = x.up
+				dl := 0
+				for _, e := range snap.PDR {
+					if e.Fseid == x.up && e.Values[0] == uint64(core) && uint32(e.Values[4]) == vIP4(x.addr) {
+						dl++
+					}
+				}
+				if dl == 0 {
+					res.violate("C11.R6", "accepted-session-without-downlink-entry", fmt.Sprintf("session %#x was accepted with UE address %s and is still live, but the datapath holds no downlink entry for it: another association's ending session took it along (no one-at-a-time order of the requests gives this)", x.up, x.addr), nil)
+				}
+			}
+		}
+		res.event("churn_runs", 1)
+		res.event("churn_live_sessions_checked", nlive)
+		res.distinct(fmt.Sprintf("churn/p%d/live%d", npeers, nlive))
 		a.stop(vStopWatchdog)
 	}
 }
